@@ -283,6 +283,25 @@ def check (c):
     worst = max (worst, d / 1e-12)
     if d > 1e-12:
         bad ('medium-object-reused', 'medium-object-reused', 'a Medium object that was the outer medium of a circular ground with radials, used again as the outer medium of a linear ground: pattern differs by %.3g of the maximum from fresh objects (boundary now %r)' % (d, getattr (mB.media [0], 'boundary', None)), measured = d, allowed = 1e-12)
+    # ---- (i) the frequency of the object changed (a sweep): the pattern over every form of ground is that of a fresh
+    # object at the new frequency (screen reactance and ground impedances follow the frequency)
+    for name in ('rad', '2med'):
+        form = [f for f in forms if f [0] == name][0]
+        mo = pats [name][0]
+        f0 = mo.f
+        mo.f = f0 * 1.37
+        observe.solve (mo)
+        ps = 10 ** (pattern (mo) [..., 2] / 10)
+        mo.f = f0
+        s2 = copy.deepcopy (spec)
+        s2 ['f'] = f0 * 1.37
+        mf2, _, _ = solved (s2, form [1], form [2], form [3])
+        pf = 10 ** (pattern (mf2) [..., 2] / 10)
+        mon ['frequency-changed'] = mon.get ('frequency-changed', 0) + 1
+        d = float (np.abs (ps - pf).max () / pf.max ())
+        worst = max (worst, d / 1e-9)
+        if d > 1e-9:
+            bad ('frequency-changed', 'pattern-after-frequency-change', 'form %s: pattern of the object set from %.6g to %.6g MHz differs by %.3g of the maximum from a fresh object' % (name, f0, f0 * 1.37, d), measured = d, allowed = 1e-9)
     # ---- (f) an interface coordinate of exactly 0: a linear boundary through the origin is the boundary at c1
     # seen from an antenna moved by -c1 along x; a circular boundary of radius 0 leaves the second medium only
     def shifted (dx):
